@@ -9,15 +9,27 @@ import collections
 from ..core import (strip, is_var, callee, const_of, apath, fields_of, show, short_loc, walk)
 from ..cond import atoms, SWAP
 from ..result import RuleResult, Violation
-from .idx import ARRAYS, DIMS, ROW, STRUCT, COL, _suffix_lookup, dim_class
+from .idx import ARRAYS, DIMS, ROW, STRUCT, COL, NNB, NNB_DIMS, _suffix_lookup
+from .idx import dim_class as _dim_class_idx
+
+
+def dim_class(t):
+    """the dimension classes of R-IDX, and the count of non-basic columns as a space of its own (positions in lpinfo::nbaz)"""
+    c = _dim_class_idx(t)
+    if c is None:
+        t0 = strip(t)
+        if isinstance(t0, list) and t0 and t0[0] == "m":
+            return _suffix_lookup(NNB_DIMS, t0[2])
+    return c
+
 
 # value class of elements loaded from these arrays
 VALUE_CLASS = {"ILLlpdata::structmap": COL, "ILLlpdata::rowmap": COL, "lpinfo::baz": COL, "lpinfo::nbaz": COL,
                "ILLmatrix::matind": ROW}
 # arrays and their index space, beyond the external-index table of R-IDX
 EXTRA_ARRAYS = {"ILLmatrix::matcnt": COL, "ILLmatrix::matbeg": COL, "lpinfo::vstat": COL, "lpinfo::vtype": COL, "lpinfo::vindex": COL,
-                "lpinfo::cz": COL, "lpinfo::lz": COL, "lpinfo::uz": COL, "lpinfo::dz": None, "lpinfo::xbz": ROW, "lpinfo::piz": ROW,
-                "lpinfo::bz": ROW, "lpinfo::baz": ROW}
+                "lpinfo::cz": COL, "lpinfo::lz": COL, "lpinfo::uz": COL, "lpinfo::dz": NNB, "lpinfo::xbz": ROW, "lpinfo::piz": ROW,
+                "lpinfo::bz": ROW, "lpinfo::baz": ROW, "lpinfo::nbaz": NNB, "lpinfo::dfeas": NNB, "lpinfo::pIdz": NNB}
 
 EXCEPT = {}
 OUT_OF_SCOPE_UNITS = {"binary_": "branch-and-bound prototype (ILLmip_bfs); integer programming is outside the LP properties C01-C20 "
@@ -419,7 +431,7 @@ def _param_classes(prog):
     taken = getattr(prog, "addr_taken", ())
     conflicts = []
     for (gk, k), cs in per.items():
-        known = {c for c in cs if c in (ROW, STRUCT, COL)}
+        known = {c for c in cs if c in (ROW, STRUCT, COL, NNB)}
         if len(known) > 1:
             conflicts.append((gk, k, sorted(known)))
     try:
@@ -430,7 +442,7 @@ def _param_classes(prog):
         g = prog.funcs.get(gk)
         if g is None or g.name in taken or not g.static:
             continue
-        if len(cs) == 1 and list(cs)[0] in (ROW, STRUCT, COL):
+        if len(cs) == 1 and list(cs)[0] in (ROW, STRUCT, COL, NNB):
             out[gk][g.params[k][0]] = list(cs)[0]
     try:
         prog._idxclass_pcls = out
@@ -488,7 +500,7 @@ def run(prog, scope_units=None, rule="R-IDXCLASS", exceptions=EXCEPT):
                 continue
             need = uses[0][3]
             for (c, loc, caller) in prog._idxclass_sites[(gk, k)]:
-                if c in (ROW, STRUCT, COL) and c != need:
+                if c in (ROW, STRUCT, COL, NNB) and c != need:
                     if in_scope is not None and caller not in in_scope:
                         continue
                     nconf += 1
